@@ -138,6 +138,12 @@ pub fn check_index(obj: &Object) -> Result<(), String> {
 	Ok(())
 }
 
+/// Every object inside `v` answers key queries like a linear scan of its own entries and has a consistent index
+/// (whatever route produced `v`).
+pub fn self_consistent(v: &json_syntax::Value) -> Result<(), String> {
+	check_all_objects(v, &RefValue::from_value(v), &["absent\u{4}key"])
+}
+
 /// Recursively checks every object inside `v` against the reference tree `m`
 /// (which must have the same shape), probing `extra_keys` too.
 pub fn check_all_objects(v: &json_syntax::Value, m: &RefValue, extra_keys: &[&str]) -> Result<(), String> {
